@@ -116,7 +116,7 @@ def graded_producer(ctx):
                       analysed=len(RESULT_PATH) + len(codegens))
 
 
-@rule("C13.graded-blades", props=["C13"], min_instances=2, mutants=[
+@rule("C13.graded-blades", props=["C13", "C01"], min_instances=2, mutants=[
     ("graded blade marks the wrong position", ("algebra", "values=[int(bin_blade == i) for i in indices], grades=(g,))", "values=[int(bin_blade != i) for i in indices], grades=(g,))")),
 ])
 def graded_blades(ctx):
